@@ -10,6 +10,7 @@ from __future__ import annotations
 
 import datetime as dt
 import re
+from pathlib import Path
 import shutil
 
 from zmon import db, harness
@@ -231,6 +232,10 @@ def run_index(acc: Acc, seed: int, idx: int, nsets: int, nq: int, only=None) -> 
                         acc.violation(f"executing {text!r} with a missing saved query did not raise (returned {len(out)} notes)", case, cls="missing saved query not reported as an error")
                     except Exception:
                         pass
+                    rcs = [db.cli(root, "query", "-s", text).rc for _ in range(2)]
+                    acc.count("cli.store_in_file_runs", 2)
+                    if 0 in rcs:
+                        acc.violation(f"`zorg query -s {text!r}` with a missing saved query exits with {rcs} on two consecutive runs", case, cls="missing saved query not reported as an error (query -s)")
                     acc.sig(("missing", nested))
                     continue
                 text_w, where, depth, alts, nrefs = b.or_filter(list(saved.keys()), saved, max_refs=3)
@@ -280,6 +285,35 @@ def run_index(acc: Acc, seed: int, idx: int, nsets: int, nq: int, only=None) -> 
                         if lm <= gs <= lm | lu:
                             finding = FINDING_POOL
                     acc.violation(f"{text!r} expanded to {expanded!r}: {len(missing_)} notes satisfying surrounding filter AND saved clause(s) missing, {len(extra)} others returned", case, cls="reference does not filter like the saved WHERE clause" + (" (saved clause has alternatives)" if alts > 1 else ""), finding=finding)
+                if qi % 4 == 1 and not (missing_ or extra):
+                    # the user-level `zorg query -s TEXT` (result stored in a temporary query page) must agree with the
+                    # service at all times - also right after a referenced saved query page has been EDITED
+                    def cli_store(t):
+                        rq = db.cli(root, "query", "-s", t)
+                        lines = [l for l in rq.out.split("\n") if l.strip()]
+                        pth = Path(lines[-1]) if lines else None
+                        if rq.rc != 0 or pth is None or not pth.exists():
+                            return rq.rc, None
+                        return rq.rc, [m.group(1) for l in pth.read_text().split("\n") for m in [ITEM_RE.match(l)] if m]
+
+                    acc.count("cli.store_in_file_runs")
+                    rc1, z1 = cli_store(text)
+                    if z1 is None or sorted(z1) != sorted(got):
+                        acc.violation(f"`zorg query -s {text!r}` (rc={rc1}) stores {None if z1 is None else len(z1)} notes, the service returns {len(got)}", case, cls="query -s result differs from the service result")
+                    else:
+                        name = re.search(r"\{(.*?)\}", text_w).group(1)
+                        f_saved = root / "zoq" / f"{name}.zoq"
+                        orig = f_saved.read_text()
+                        f_saved.write_text("# W " + qrng.choice(["x ~", "o", "-", "P0-2", "o | -"]) + "\n")
+                        try:
+                            got2 = execute(text)
+                            rc2, z2 = cli_store(text)
+                            if z2 is None or sorted(z2) != sorted(got2):
+                                acc.violation(f"after editing the saved query {name!r}: `zorg query -s {text!r}` (rc={rc2}) stores {None if z2 is None else len(z2)} notes, the service returns {len(got2)}", case, cls="query -s result is stale after a saved query was edited")
+                        except Exception:
+                            pass
+                        finally:
+                            f_saved.write_text(orig)
                 if alts > 1 or (gs != all_z and gs):
                     acc.sig((depth, min(alts, 3), nrefs, text_w.count("|")))
                 acc.sample({"query": text, "expanded": expanded, "saved": files, "returned": len(got)}, cap=2)
